@@ -9,7 +9,7 @@ class TermError(Exception):
     pass
 
 
-_TOK = re.compile(r"\s*(?:(\d+)|([A-Za-z_:<>@\[\]'&][\w:<>@\[\]'&]*(?:\.[A-Za-z_]\w*)*)|(.))")
+_TOK = re.compile(r"\s*(?:(\d+)|([A-Za-z_:<>@\[\]'&][\w:<>@\[\]'&]*(?:\.[\w@:<>\[\]]+)*)|(.))")
 
 
 def parse(s):
